@@ -71,6 +71,8 @@ def parseStmt (t : String) : Option Stmt :=
   | ["tsr", sig, n, _] => n.toNat?.map fun n => .ts [sig] n [] false
   | ["tsa", sig, n] => n.toNat?.map fun n => .ts [sig] n [] true
   | ["ts2", s1, s2, n] => if s1 = s2 then none else n.toNat?.map fun n => .ts [s1, s2] n [] false
+  | ["tsq", sig, n, q] => do pure (.ts [sig] (← n.toNat?) [] false (.probe (← q.toNat?)))
+  | ["tsf", sig, n, r] => do pure (.ts [sig] (← n.toNat?) [] false (.ret (← r.toNat?)))
   | ["tc", n] => n.toNat?.map fun n => .ts ["CHLD"] n [] false
   | ["tcx"] => some .tcx
   | "tso" :: sig :: n :: ks => if ks.isEmpty then none else do
